@@ -414,6 +414,7 @@ func Chain(t reflect.Type, r *engine.PRNG, n int) (reflect.Value, bool) {
 		return reflect.Value{}, false
 	}
 	fi := -1
+	viaMap := false
 	for i := 0; i < t.NumField(); i++ {
 		ft := t.Field(i).Type
 		if ft.Kind() == reflect.Ptr && ft.Elem() == t && t.Field(i).PkgPath == "" {
@@ -422,7 +423,39 @@ func Chain(t reflect.Type, r *engine.PRNG, n int) (reflect.Value, bool) {
 		}
 	}
 	if fi < 0 {
+		// or through a map value: map[string]T
+		for i := 0; i < t.NumField(); i++ {
+			ft := t.Field(i).Type
+			if ft.Kind() == reflect.Map && ft.Key().Kind() == reflect.String && ft.Elem() == t && t.Field(i).PkgPath == "" {
+				fi, viaMap = i, true
+				break
+			}
+		}
+	}
+	if fi < 0 {
 		return reflect.Value{}, false
+	}
+	if viaMap {
+		// built from the innermost level outwards: a map value cannot be modified in place
+		var cur reflect.Value
+		for lvl := n - 1; lvl >= 0; lvl-- {
+			node := reflect.New(t).Elem()
+			g := &gen{r: r, o: GenOpts{Size: 3, MaxDepth: 1, ZeroPct: 40}, budget: 3}
+			for i := 0; i < t.NumField(); i++ {
+				k := t.Field(i).Type.Kind()
+				if i != fi && t.Field(i).PkgPath == "" && (k == reflect.Int || k == reflect.String) {
+					g.budget = 2
+					g.fill(node.Field(i), 2, false)
+				}
+			}
+			if cur.IsValid() {
+				m := reflect.MakeMap(t.Field(fi).Type)
+				m.SetMapIndex(reflect.ValueOf("k"), cur)
+				node.Field(fi).Set(m)
+			}
+			cur = node
+		}
+		return cur, true
 	}
 	root := reflect.New(t).Elem()
 	cur := root
